@@ -37,7 +37,7 @@ func methodOn(c *ssa.CallCommon, pkg, typ string) (string, bool) {
 	if !an.NamedIs(f.Signature.Recv().Type(), pkg, typ) {
 		return "", false
 	}
-	return f.Name(), true
+	return an.RefFuncName(f), true
 }
 
 // isFieldCall recognises a call through a function-typed struct field (t.encode / t.decode).
@@ -139,7 +139,7 @@ func c04Framing(p *load.Program, r *oblig.Report) {
 			if !ok {
 				return
 			}
-			if f := c.Call.StaticCallee(); f != nil && f.Name() == "packUint32" {
+			if f := c.Call.StaticCallee(); f != nil && an.RefFuncName(f) == "packUint32" {
 				d := argDesc(c.Call.Args[0])
 				r.Check(strings.Contains(d, "pageBuffer).Size*1-4") && !strings.Contains(d, "|"), rule, "protocol."+sp.fn+" → size prefix value", p.Pos(c.Pos()),
 					"uint32(b.Size()) - 4", d)
@@ -363,7 +363,7 @@ func encEffect(fn *ssa.Function) string {
 			}
 		}
 	})
-	if len(fn.Blocks) == 1 && len(calls) == 1 && calls[0].Call.StaticCallee().Name() == "Write" {
+	if len(fn.Blocks) == 1 && len(calls) == 1 && an.RefFuncName(calls[0].Call.StaticCallee()) == "Write" {
 		if sl, ok := calls[0].Call.Args[1].(*ssa.Slice); ok && sl.High != nil {
 			if h, ok := an.ConstInt(sl.High); ok {
 				return fmt.Sprintf("fixed%d", h)
@@ -371,7 +371,7 @@ func encEffect(fn *ssa.Function) string {
 		}
 	}
 	desc := func(c *ssa.Call) string {
-		m := c.Call.StaticCallee().Name()
+		m := an.RefFuncName(c.Call.StaticCallee())
 		switch m {
 		case "Write", "WriteString":
 			return "data"
@@ -459,7 +459,7 @@ func decEffect(fn *ssa.Function) string {
 		return "unrecognised"
 	}
 	var first *ssa.Call
-	for _, ins := range fn.Blocks[0].Instrs {
+	for _, ins := range an.Blocks(fn)[0].Instrs {
 		if c, ok := ins.(*ssa.Call); ok {
 			if _, ok := methodOn(&c.Call, protoPath, "decoder"); ok && first == nil {
 				first = c
@@ -501,7 +501,7 @@ func decEffect(fn *ssa.Function) string {
 			arg = fmt.Sprintf("n%+d", os[0].B)
 		}
 	}
-	return fmt.Sprintf("%s ; <%d? zero : read(%s)", first.Call.StaticCallee().Name(), k, arg)
+	return fmt.Sprintf("%s ; <%d? zero : read(%s)", an.RefFuncName(first.Call.StaticCallee()), k, arg)
 }
 
 // c04Dispatch: encoder and decoder choose primitives of the same wire type for each (kind, flexible, nullable).
@@ -549,7 +549,7 @@ func returnedFuncsByFlex(fn *ssa.Function) map[string][]string {
 	})
 	atoms := func(v ssa.Value) (string, bool) {
 		if prm, ok := v.(*ssa.Parameter); ok {
-			if prm.Name() == "flexible" {
+			if an.ParamName(prm) == "flexible" {
 				return "flexible", true
 			}
 			return "", false
@@ -592,7 +592,7 @@ func retFuncName(v ssa.Value) string {
 			an.EachInstr(f, func(ins ssa.Instruction) {
 				if c, ok := ins.(*ssa.Call); ok {
 					if sc := c.Call.StaticCallee(); sc != nil && sc.Signature.Recv() != nil {
-						names = append(names, sc.Name())
+						names = append(names, an.RefFuncName(sc))
 					}
 				}
 			})
@@ -656,7 +656,7 @@ func c04TagSkip(p *load.Program, r *oblig.Report) {
 	okRead := false
 	an.EachInstr(read, func(ins ssa.Instruction) {
 		if c, ok := ins.(*ssa.Call); ok {
-			if f := c.Call.StaticCallee(); f != nil && f.Pkg != nil && f.Pkg.Pkg.Path() == "io" && f.Name() == "ReadFull" {
+			if f := c.Call.StaticCallee(); f != nil && f.Pkg != nil && f.Pkg.Pkg.Path() == "io" && an.RefFuncName(f) == "ReadFull" {
 				if mk, ok := c.Call.Args[1].(*ssa.MakeSlice); ok && mk.Len == ssa.Value(read.Params[1]) {
 					okRead = true
 				}
